@@ -120,7 +120,7 @@ PROPS["C05"] = dict(
                "matches CP SEID and node address. Tie: S-ctl 'nodes' + frame predicates on the implementation's dumps.",
     level_note="Trusted: as C01. The frame theorems are about the node OBJECT registered under an id (what the code keys on). The external ownership predicate reads the statement by the requests: a session "
                "belongs to the node id of its Establishment Request, later to the node id of a Modification Request that takes THAT session over; re-association of N must remove exactly those. "
-               "The code's takeover renames the whole node object and can orphan a registered node: known finding takeoverNode (signature only in histories that contain a takeover; corpus/nodes.cases witnesses it on every run).",
+               "The code's takeover renames the whole node object and can orphan a registered node: known finding takeoverNode (signature only in histories that contain a takeover; corpus/nodes.cases witnesses it on every run; Props/C05.takeover_orphans proves the witness on the model by evaluation).",
 )
 PROPS["C08"] = dict(
     module="UpfVerif.Props.C08",
